@@ -128,7 +128,8 @@ class Mut:
             elif k < 0.94 and donors:
                 # only operations of a kind, and on an interface, the scenario already uses (flow / tick / table calls need
                 # the automata its own prologue creates)
-                have = set(l.split()[0] for l in ls); ctxs = set(l.split()[1] for l in ls if len(l.split()) > 1)
+                have = set(l.split()[0] for l in ls); ctxs = set(l.split()[1] for l in ls if len(l.split()) > 1 and l.split()[0] not in ('adv', 'cfg', 'junk', 'failalloc', 'failsend'))
+                if any(l.startswith('mk ') for l in ls): ctxs = set(l.split()[1] for l in ls if l.startswith('mk '))
                 d = r.choice(donors); dm = [l for l in d if self.mutable(l) and l.split()[0] in have and (len(l.split()) < 2 or l.split()[1] in ctxs or l.split()[0] == 'adv')]
                 if dm:
                     s = r.randrange(len(dm)); seg = dm[s:s + r.choice([1, 2, 5, 20])]
